@@ -209,6 +209,15 @@ impl HostTimer {
     pub(crate) fn since_epoch(&self) -> Duration {
         self.since_epoch + self.sim_elapsed()
     }
+
+    /// [`Self::since_epoch`] at the start of the current step. Unlike
+    /// `since_epoch` this does not read `Instant::now()`, so it is safe to
+    /// call outside of the host's (paused) tokio runtime, where tokio falls
+    /// back to the wall clock.
+    #[cfg(feature = "unstable-fs")]
+    pub(crate) fn since_epoch_at_step_start(&self) -> Duration {
+        self.since_epoch + self.start_offset + self.elapsed
+    }
 }
 
 /// Simulated UDP host software.
